@@ -107,6 +107,21 @@ def run(e: Engine, rep: Report):
              'CR LF cut between two reads is still found, the reader does '
              'not wait for bytes the server has no reason to send')
     f10(e, rep)
+    rep.rule('F11', 'one read per refill: every call of IO.buffered_recv '
+             'does exactly one raw_recv (a refill that goes on reading '
+             '"while the last read was full" reads past the last reply the '
+             'client is owed when that reply ends on a full read - and '
+             'blocks)')
+    f11(e, rep)
+    rep.rule('F12', 'who-may-reset the LMTP recipient list: '
+             'LmtpClient.rcpttos is emptied only where the server\'s '
+             'transaction is over by protocol (table RCPTTOS_RESETTERS: '
+             'constructor, accepted LHLO, RSET, end of data) - a reset on '
+             'MAIL forgets recipients the server still holds when it '
+             'refuses that MAIL, and their end-of-data replies are '
+             'mis-paired')
+    rep.tables.add('c10.RCPTTOS_RESETTERS')
+    f12(e, rep)
     rep.floor('F2', 14, 'command methods')
 
 
@@ -694,3 +709,73 @@ def f10(e: Engine, rep: Report):
         rep.ok('F10', 'slimta.smtp.io', 'no resumed searches of the buffer',
                reason='every search starts at the head of the buffer',
                nontrivial=False)
+
+
+# --------------------------------------------------------------------- F11
+def f11(e: Engine, rep: Report):
+    ctx = e.method_ctx('slimta.smtp.io.IO', 'buffered_recv')
+    g = e.build(ctx, raises=lambda b, n, r: set(),
+                inline=e.inline_same_self(deny=['raw_recv']), max_depth=2)
+    where = ctx.func.qname
+    rep.functions.add(where)
+    calls = [n for n in g.calls() if e.call_name(n) == 'raw_recv']
+    rep.evaluations += 1
+    if not calls:
+        rep.unknown('F11', where, 'one raw_recv per refill',
+                    'no raw_recv call in buffered_recv', loc=ctx.func.loc())
+        return
+    counts = dataflow.count_events(g, lambda n: 1 if n in calls else 0,
+                                   cap=3)
+    st = counts.get(g.exit.id)
+    rep.check(st == frozenset([1]), 'F11', where,
+              'one raw_recv per refill',
+              'buffered_recv can do %s socket reads per call: a second '
+              'read is issued although the first one may already hold '
+              'everything the peer sent - the client waits for bytes the '
+              'server has no reason to send' % sorted(st or ()),
+              loc=calls[0].loc(), reason='exactly one on every path')
+
+
+# --------------------------------------------------------------------- F12
+RCPTTOS_RESETTERS = {'__init__', 'lhlo', 'rset', 'send_data',
+                     'send_empty_data'}
+
+
+def f12(e: Engine, rep: Report):
+    cq = 'slimta.smtp.client.LmtpClient'
+    c = e.p.classes.get(cq)
+    if c is None:
+        rep.error('anchor vanished: ' + cq)
+        return
+    owners = common.owner_closure(e, cq, RCPTTOS_RESETTERS)
+    n = 0
+    for mname, m in sorted(c.methods.items()):
+        for x in walk_own(m.node):
+            hit = None
+            if isinstance(x, ast.Assign) and any(
+                    isinstance(t, ast.Attribute) and t.attr == 'rcpttos' and
+                    isinstance(t.value, ast.Name) and t.value.id == 'self'
+                    for t in x.targets):
+                hit = x
+            elif isinstance(x, ast.Call) and \
+                    isinstance(x.func, ast.Attribute) and \
+                    x.func.attr in ('clear', 'pop') and \
+                    ast.unparse(x.func.value) == 'self.rcpttos':
+                hit = x
+            if hit is None:
+                continue
+            n += 1
+            rep.evaluations += 1
+            rep.functions.add(m.qname)
+            rep.check(mname in owners, 'F12', m.qname,
+                      'reset of self.rcpttos',
+                      '%s empties the list of recipients whose end-of-data '
+                      'replies are owed, outside %s: the server answers one '
+                      'reply per recipient IT accepted, so after this reset '
+                      'the replies are paired with the wrong recipients and '
+                      'the surplus ones stay unread for the next command'
+                      % (mname, sorted(RCPTTOS_RESETTERS)), loc=m.loc(hit),
+                      reason='enumerated resetter')
+    if n < 4:
+        rep.error('anchor vanished: resets of LmtpClient.rcpttos (%d < 4)'
+                  % n)
